@@ -327,6 +327,7 @@ func classifyMapRange(pkg *packages.Package, fd *ast.FuncDecl, rs *ast.RangeStmt
 
 // c20Globals: census of package-level variables written outside init.
 func c20Globals(r *Run) {
+	c20ResetFacts(r)
 	globalsCensus(r, []string{"lexer", "parser", "token", "node", "data", "runtime", "std/php", "std/php/core"},
 		"package-level variable %s (%s) is written outside init by %s: state that outlives a VM unless it is reset, write-once, or keyed by VM")
 }
@@ -477,6 +478,66 @@ func sortStrings(s []string) {
 	for i := 1; i < len(s); i++ {
 		for j := i; j > 0 && s[j] < s[j-1]; j-- {
 			s[j], s[j-1] = s[j-1], s[j]
+		}
+	}
+}
+
+// c20ResetFacts checks the facts that the "not armed" entries of the census lean on: a variable listed as
+// "reset before each program by <entry>" is really assigned in the call closure of that entry (the place
+// every program run goes through, whoever starts it). If the reset has moved elsewhere the entry no longer
+// covers the variable and it is reported.
+func c20ResetFacts(r *Run) {
+	for _, f := range []struct{ varPkg, varName, entryPkg, entryRecv, entryFn string }{
+		{"data", "userOutputEmitted", "runtime", "VM", "LoadAndRun"},
+	} {
+		vp, ep := r.pkg(f.varPkg), r.pkg(f.entryPkg)
+		if vp == nil || ep == nil {
+			continue
+		}
+		v, _ := vp.Types.Scope().Lookup(f.varName).(*types.Var)
+		entry := findFunc(ep, f.entryRecv, f.entryFn)
+		key := f.varPkg + "." + f.varName + "#reset-by:" + f.entryFn
+		if v == nil {
+			continue // the variable is gone: nothing to reset
+		}
+		if entry == nil {
+			r.fail("anchor not found: %s.(%s).%s", f.entryPkg, f.entryRecv, f.entryFn)
+			continue
+		}
+		seen := map[*ast.FuncDecl]bool{}
+		var assigns func(p *packages.Package, fd *ast.FuncDecl, depth int) bool
+		assigns = func(p *packages.Package, fd *ast.FuncDecl, depth int) bool {
+			if fd == nil || fd.Body == nil || seen[fd] || depth > 3 {
+				return false
+			}
+			seen[fd] = true
+			found := false
+			ast.Inspect(fd.Body, func(n ast.Node) bool {
+				if found {
+					return false
+				}
+				switch x := n.(type) {
+				case *ast.AssignStmt:
+					for _, l := range x.Lhs {
+						if id, ok := ast.Unparen(l).(*ast.Ident); ok && p.TypesInfo.Uses[id] == v {
+							found = true
+						}
+					}
+				case *ast.CallExpr:
+					if cal := calleeFunc(p.TypesInfo, x); cal != nil {
+						if cp, cd := r.declAnywhere(cal); cd != nil && assigns(cp, cd, depth+1) {
+							found = true
+						}
+					}
+				}
+				return !found
+			})
+			return found
+		}
+		if assigns(ep, entry, 0) {
+			r.ok(key, entry.Pos(), f.varName+" is reset on the way into every program run ("+f.entryFn+")")
+		} else {
+			r.bad(key, entry.Pos(), "process-wide variable "+f.varPkg+"."+f.varName+" is no longer reset by "+f.entryFn+", the entry every program run goes through: a host that runs two programs on fresh VMs carries the first program's state into the second")
 		}
 	}
 }
